@@ -59,4 +59,44 @@ CHECKS = {
   'text': 'One frame on 7E5h from an arbitrary LSS state (step, pending configuration, flags), symbolic identity 1018h:1..4, node id, arguments, dlc; every known command specifier (thorough: all 256) in both LSS states and three NMT modes against the CiA 305 service table; plus the configure / store / reset-communication / boot-up scenario.',
   'note': 'interleaving of selective and identify sequences unconstrained; activate-bit-timing only gated; 67/75/76 decoded by calling COLssCheck directly (see DESIGN.md)',
  },
+ 'C10': {
+  'text': 'hbp_bmc: whole node (heartbeat producer, one event-driven TPDO with event/inhibit timers, SYNC producer, application timer) on the real timer (pool 4, 1 kHz); operation-kind sequences of length 5..7 over {tick, SDO/API write 1017h, NMT start/stop/pre-op/reset-communication, SDO write 1800h:5 / 1800h:3 / 1005h / 1006h, TPDO trigger, application timer create/delete} are enumerated by the driver (34 quick, +625 thorough), '
+          'written times taken from 3 (thorough 6) value vectors over 0..3 ms, initial 1017h 2 ms (thorough 0/1/2). After every step the frames on 700h+id are compared with a reference schedule that only knows 1017h: count per tick, dlc 1, state code 127/5/4, restart on write, stop on zero, boot-up + restart on reset communication.',
+  'note': 'written times are concrete per instance (symbolic times make every timer-list shape symbolic; cbmc does not finish), operation kinds concrete; periods > 3 ticks, timer frequencies other than 1 kHz and sequences longer than 7 are outside the bound',
+ },
+ 'C11': {
+  'text': 'hbc_step: ONE consumer operation from an ARBITRARY consumer table: 2 (thorough 3) entries, every active-chain shape and order, every mask of running monitors enumerated; node ids, times 1..5 ms, event counters, last states symbolic. Operations: SDO write of a symbolic (node, time) to each entry, heartbeat frame from a symbolic node with symbolic state byte, monitor time elapsing (1..6 ticks), CONmtGetHbEvents, CONmtLastHbState. '
+          'Oracle: reference monitor (refusal 0604 0043h exactly for a non-zero time on a node monitored by another active entry and nothing changed; time 0 deactivates exactly the written entry; other entries untouched; event exactly when the time elapses and again after each period; counter saturates at 255 and clears on read; change callback iff state differs) plus chain invariant (acyclic, each entry once, chain = active entries). One step from an arbitrary consistent table = induction over histories.',
+  'note': 'consumer times 1..5 ticks at 1 kHz; 4 entries outside the bound; re-pointing an ACTIVE entry to another node with non-zero time is only required to keep the chain invariant (DESIGN appendix B)',
+ },
+ 'C12': {
+  'text': 'tpdo_bmc: one TPDO on a whole node with the real timer; 7 mappings (1..4 objects of 1/2/3/4 bytes incl. 3-byte fields and a full 8-byte frame) with symbolic object values; 42 operation sequences (thorough + all 1024 sequences over {trigger, tick, object write, event-time write} of length 5) over {trigger, changed / unchanged write of an asynchronous mapped object, tick, SYNC, NMT start/stop/pre-op, SDO write event time / inhibit time, COB-ID invalidate / validate}; '
+          'inhibit 0..3 ms, event 0..3 ms, types 1,2,3,240,254,255. Every emission (tick, identifier, dlc, little-endian data) is compared with a reference model of the trigger / inhibit / event / n-th-SYNC rules (inhibit first on ties); nothing is sent outside OPERATIONAL or with an invalid COB-ID.',
+  'note': 'times and operation kinds concrete per instance, data symbolic; first event-timer arming after entering OPERATIONAL follows the code (stagger by channel number, DESIGN appendix B); one TPDO channel; objects wider than 4 bytes outside',
+ },
+ 'C13': {
+  'text': 'rpdo_step: 10 mappings (8/16/24/32-bit fields, dummies 0002h..0007h of each width, asynchronous-flagged objects) x channel tables (which of 2 channels are valid / synchronous, incl. a synchronous channel above an asynchronous or invalid one) x NMT mode; payload, dlc and all object contents symbolic. Sequences over {RPDO frame, SYNC, local write, neighbouring identifier} of length <= 3 (thorough: all 39). '
+          'Oracle: model of the mapped objects (little-endian consecutive fields, dummies skip) + frame rule over every application variable and its guard words; synchronous RPDO applied exactly once at the next SYNC, SYNC without reception changes nothing, no effect outside OPERATIONAL or for another identifier.',
+  'note': 'frames shorter than the mapped length unconstrained (DESIGN appendix B); mappings enumerated, at most 4 mapping slots per channel in the template',
+ },
+ 'C14': {
+  'text': 'pdocfg_step: ONE expedited SDO write to RPDO 0 / TPDO 0 COB-ID, type, mapping count or mapping entry 1..4 from an ARBITRARY stored configuration (COB-ID incl. valid bit, type, count 0..4, four mapping values all symbolic under the configuration invariant) with a fully symbolic 32-bit written value, in PRE-OP and OPERATIONAL. '
+          'Oracle: CiA 301 rule table (changes only while invalid, entries only while count 0, entry must name an existing mappable object with the right access - reference scan of the dictionary -, count <= entries and <= 8 bytes, extended / RTR refused), abort codes, refused => stored value unchanged, invariant preserved, and activation (entering OPERATIONAL) builds Map/Size/ObjNum exactly as stored with <= 8 bytes. Induction over write histories.',
+  'note': '4 mapping slots per PDO in the template (the 8-entry limit is exercised through the byte limit and count > 4 refusals); one channel per direction',
+ },
+ 'C16': {
+  'text': 'sync_step: (a) one SDO write to 1005h / 1006h with stored 1005h (11-bit id, bit 30), stored 1006h, written value and a stale node error all symbolic at 100 Hz / 1 kHz / 1 MHz: verdict (0609 0030h on id change while producing, refusal of an unresolvable period with the previous value kept), stored value, producer started / stopped / re-timed; (b) COSyncUpdate identifier match with symbolic cached 1005h and symbolic 29-bit frame identifier; '
+          '(c) one SYNC through CONodeProcess in each mode with one / two synchronous TPDOs, types 1..240 and SYNC counters symbolic (inductive step: a type-n TPDO is sent on exactly every n-th SYNC, each counter advances once); (d) producer timing: 12 (thorough 17) operation sequences x 3 value vectors on the real timer comparing (tick, frame) SYNC emissions with the model, incl. NMT stop/start and reset communication.',
+  'note': 'period <= 6553500 us (16-bit tick conversion, DESIGN §6 item 18b), producer periods 1..3 ms in the timing sequences',
+ },
+ 'C17': {
+  'text': 'para_bmc: 1..3 parameter groups with symbolic size 1..8, symbolic enable flag and reset types from 4 layouts; RAM images, initial NVM image, signatures (so right and wrong ones) symbolic; sequences over {application change, store request, restore request} ending in restart (CONodeInit on a zeroed node, NVM kept), NMT reset communication or reset node; the position and size of one short NVM driver count symbolic. '
+          'Oracle: NVM image = bytes of exactly the addressed enabled groups (all for sub-index 1), wrong signature touches neither RAM nor NVM, COParaDefault for exactly the addressed groups, after restart / reset RAM of the groups of that reset type = last successfully stored image, every short count surfaces as SDO abort or node error.',
+  'note': 'group sizes <= 8, <= 3 groups, <= 3 requests per sequence; a restart inside one driver call (torn write) is outside: the driver interface is one call per group',
+ },
+ 'C19': {
+  'text': 'csdo_e2e: the real SDO client against a reference server in the harness: upload and download of 1,3,4,5,7,8,14,15 bytes (thorough up to 28) with symbolic payload; server conforming / aborting with a symbolic code at step j / silent from step j / unknown command / wrong toggle / oversized or foreign answer; each followed by a second transfer with a longer time-out after an idle gap. '
+          'Oracle: callback exactly once with the right code, user buffer with red zones exact, bus frames exact (announced size, toggles, last-segment flag, n field), abort frame 0504 0000h on time-out, busy client refuses, timer pool occupancy restored. csdo_step: arbitrary BUSY download context with 32-bit symbolic Size (5..600) and Buf_Idx: next segment width min(7, Size-Buf_Idx), c-bit iff last, bytes from the right offset.',
+  'note': 'e2e sizes enumerated, <= 4 segments; sizes up to 600 through the inductive segment step; one client; block transfer is not implemented by the client',
+ },
 }
